@@ -7,6 +7,7 @@ import (
 	"net/http"
 	"net/http/httptest"
 	"os"
+	"runtime"
 	"sort"
 	"strconv"
 	"strings"
@@ -31,9 +32,13 @@ type event struct {
 	err  string // "n" or the status of the error in the request context ("0": not a HandlerError)
 	repl string // "n" or the value of the {http.error.status_code} placeholder
 	hint bool   // not a probe event: an interim WriteHeader(103) (static_response Early Hints)
+	bad  string // the other http.error.* placeholders do not fit the error (not part of the canonical answer)
 }
 
-type recorder struct{ events []event }
+type recorder struct {
+	events []event
+	yield  bool // give other requests a chance to run at every probe handler
+}
 
 // Probe is the handler module http.handlers.verif_c05.
 type Probe struct {
@@ -70,13 +75,17 @@ func (p *Probe) ServeHTTP(w http.ResponseWriter, r *http.Request, next caddyhttp
 			// of the request (WithError) can hold a stale RequestURI next to a rewritten URL
 			uri = r.RequestURI
 		}
-		rs := "n"
+		rs, bad := "n", ""
 		if repl, ok := r.Context().Value(caddy.ReplacerCtxKey).(*caddy.Replacer); ok {
 			if v, ok := repl.Get("http.error.status_code"); ok {
 				rs = fmt.Sprint(v)
 			}
+			bad = errorPlaceholdersFit(repl, r.Context().Value(caddyhttp.ErrorCtxKey))
 		}
-		rec.events = append(rec.events, event{id: p.ID, path: r.URL.Path, uri: uri, err: e, repl: rs})
+		rec.events = append(rec.events, event{id: p.ID, path: r.URL.Path, uri: uri, err: e, repl: rs, bad: bad})
+	}
+	if rec, ok := r.Context().Value(traceKey{}).(*recorder); ok && rec.yield {
+		runtime.Gosched()
 	}
 	switch p.Kind {
 	case "pass":
@@ -93,6 +102,44 @@ func (p *Probe) ServeHTTP(w http.ResponseWriter, r *http.Request, next caddyhttp
 		return probeErr(p.Status)
 	}
 	return fmt.Errorf("verif probe: unknown kind %q", p.Kind)
+}
+
+// errorPlaceholdersFit checks what WithError tells the error routes besides the status code:
+// {http.error} is the error in the request context; for a HandlerError status_text is the text of
+// status_code, id and trace are those of the error, message is the message of the wrapped error.
+func errorPlaceholdersFit(repl *caddy.Replacer, ctxErr any) string {
+	get := func(k string) any { v, _ := repl.Get("http.error." + k); return v }
+	raw, _ := repl.Get("http.error")
+	if ctxErr == nil {
+		if raw != nil || get("status_code") != nil || get("status_text") != nil || get("message") != nil || get("id") != nil {
+			return "http.error.* placeholders are set although no error is being handled"
+		}
+		return ""
+	}
+	he, isHE := ctxErr.(caddyhttp.HandlerError)
+	if fmt.Sprint(raw) != fmt.Sprint(ctxErr) {
+		return fmt.Sprintf("{http.error} is %q, the error being handled is %q", fmt.Sprint(raw), fmt.Sprint(ctxErr))
+	}
+	if !isHE {
+		return "" // the other placeholders are left as they were (modelled for status_code)
+	}
+	if code, ok := get("status_code").(int); !ok || code != he.StatusCode {
+		return fmt.Sprintf("{http.error.status_code} is %v for a HandlerError with status %d", get("status_code"), he.StatusCode)
+	}
+	if get("status_text") != http.StatusText(he.StatusCode) {
+		return fmt.Sprintf("{http.error.status_text} is %q for status %d", get("status_text"), he.StatusCode)
+	}
+	if get("id") != he.ID || get("trace") != he.Trace {
+		return "{http.error.id} / {http.error.trace} are not those of the error being handled"
+	}
+	want := http.StatusText(he.StatusCode)
+	if he.Err != nil {
+		want = he.Err.Error()
+	}
+	if get("message") != want {
+		return fmt.Sprintf("{http.error.message} is %q, the error's message is %q", get("message"), want)
+	}
+	return ""
 }
 
 // ErrMatcher0 reports (false, err); ErrMatcher1 reports (true, err); ErrMatcher2 is a legacy
@@ -514,20 +561,48 @@ func serveSeq(rs []*route, hasErrs bool, errs []*route, qs []request, named []*r
 			return obs, err
 		}
 	}
-	for _, q := range qs {
+	one := func(q request, yield bool) (o observed) {
+		defer func() {
+			if r := recover(); r != nil && yield {
+				o = observed{panicked: true}
+			} else if r != nil {
+				panic(r)
+			}
+		}()
 		req := httptest.NewRequest(methods[q.method], paths[q.path], nil)
 		req.Host = hosts[q.host]
 		if q.hdr > 0 {
 			req.Header.Set(hdrName, hdrVals[q.hdr])
 		}
-		rec := &recorder{}
+		rec := &recorder{yield: yield}
 		req = req.WithContext(context.WithValue(req.Context(), traceKey{}, rec))
 		w := &respWriter{h: http.Header{}, rec: rec}
 		srv.ServeHTTP(w, req)
-		obs = append(obs, observed{events: rec.events, codes: w.codes, writes: w.writes})
+		return observed{events: rec.events, codes: w.codes, writes: w.writes}
+	}
+	for _, q := range qs {
+		obs = append(obs, one(q, false))
+	}
+	if serveConcurrently && len(qs) >= 2 {
+		// the first two requests again, twice each, at the same time on the same server; every
+		// probe handler yields the processor so that the four requests interleave
+		res := make([]observed, 4)
+		var wg sync.WaitGroup
+		for i := range res {
+			wg.Add(1)
+			go func(i int) {
+				defer wg.Done()
+				res[i] = one(qs[i%2], true)
+			}(i)
+		}
+		wg.Wait()
+		obs = append(obs, res...)
 	}
 	return obs, nil
 }
+
+// serveConcurrently makes serveSeq add four concurrent requests (see there).
+var serveConcurrently bool
 
 func pathIndex(p string) string {
 	for i, s := range paths {
